@@ -43,7 +43,7 @@ MANIFEST = {
         "design_ref": "DESIGN.md §6.15",
     },
     "C38": {
-        "text": "Determinism as a trace property: SimReplayTrace keeps memo[input] = (decision log, outputs, verdict) and accepts a run only if it equals the memoised one. Runs: seeded random byte strings driving the real hooks through the bolero bytes driver (as fuzz_repro installs it), CompiledSim::fuzz_repro of end-to-end programs with run_with_scheduler_and_logger, and complete exhaustive explorations; every input is run twice in one process and twice in a second process.",
+        "text": "Determinism as a trace property: SimReplayTrace keeps memo[input] = (decision log, outputs, verdict) and accepts a run only if it equals the memoised one. Runs: seeded random byte strings driving the real hooks through the bolero bytes driver (as fuzz_repro installs it), CompiledSim::fuzz_repro of end-to-end programs with run_with_scheduler_and_logger, and complete exhaustive explorations; every input is run twice in one process and twice in a second process. Two further programs bind the INLINE in-tick order hooks (p8: keyed batch + keyed assume_ordering = KeyedStreamOrderHook with 6 keys x 2-5 values in one tick; p9: assume_ordering = StreamOrderHook): 6 fixed decision-byte strings each, replayed 4 times per process in 2 processes.",
         "note": "The spec is deliberately the trivial 'function of its input'; the value is in the inputs (keyed hooks iterate FxHashMaps; two processes have different std RandomState).",
         "technique": "TLA+ trace specification evaluated by TLC on recorded runs of the real simulator",
         "design_ref": "DESIGN.md §6.15",
@@ -167,9 +167,9 @@ def _enum_configs(cases, limit, rnd):
     return out, total
 
 
-def _run_e2e(exe, d, progs, count, tag):
-    out = os.path.join(d, "e2e_%s.ndjson" % tag)
-    p = vlib.run_bin(exe, ["exhaustive,repro", ",".join(progs), count, tag, out], timeout=3000)
+def _run_e2e(exe, d, progs, count, tag, modes="exhaustive,repro", name="e2e"):
+    out = os.path.join(d, "%s_%s.ndjson" % (name, tag))
+    p = vlib.run_bin(exe, [modes, ",".join(progs), count, tag, out], timeout=3000)
     if p.returncode != 0:
         raise vlib.ToolError("simprog (%s) failed rc=%s: %s" % (tag, p.returncode, p.stderr[-1500:]))
     return out
@@ -214,11 +214,16 @@ def run(tier):
         f_pairs = ex.submit(_impl_job, "sh_pairs", 2, 2, 1, 1 if thorough else 0, 2 if thorough else 1, False)
         f_mc = ex.submit(vlib.tlc, SD, "SimHooksMC", workers=1, timeout=900, tag="sh_mc")
 
+        INLINE = []
+
         def e2e():
             if NO_E2E:
                 return None, None, {"skipped": True}
             a = _run_e2e(sim_exe, d, progs, nrepro, "A")
             b = _run_e2e(sim_exe, d, progs, nrepro, "B")
+            # programs with the INLINE order hooks (KeyedStreamOrderHook / StreamOrderHook): 6 fixed
+            # decision-byte strings, each replayed 4 times per process through fuzz_repro (C38 only)
+            INLINE.extend(_run_e2e(sim_exe, d, ["p8", "p9"], 6, t, modes="repro4", name="e2e_inline") for t in ("A", "B"))
             return a, b, _run_p5(sim_exe, d)
         f_e2e = ex.submit(e2e)
         ndet = 3000 if thorough else 400
@@ -291,7 +296,7 @@ def run(tier):
 
     def det_job():
         runs = []
-        for f in parts + ([] if NO_E2E else [e2e_a, e2e_b]):
+        for f in parts + ([] if NO_E2E else [e2e_a, e2e_b] + INLINE):
             runs += [e for e in vlib.read_ndjson(f) if e.get("e") == "run"]
         dtrace = os.path.join(d, "replay_det_trace.ndjson")
         vlib.write_ndjson(dtrace, runs + [{"e": "eof"}])
@@ -396,8 +401,22 @@ def run(tier):
     runs, dtrace, (viol, stats, r_dv) = f_dv.result()
     c38.add_tlc(r_dv, "replay-validation:runs")
     pool.shutdown()
-    if stats.get("runs") != len(runs) or stats.get("inputs", 0) * 4 != len(runs):
-        raise vlib.ToolError("replay trace: %s for %d runs (every input must be run 4 times)" % (stats, len(runs)))
+    per_input = {}
+    for e in runs:
+        per_input.setdefault(e["input"], set()).add((e["proc"], e["rep"]))
+    short = [k for k, v in per_input.items() if len(v) < 4 or {p for p, _ in v} != {"A", "B"}]
+    if stats.get("runs") != len(runs) or stats.get("inputs") != len(per_input) or short:
+        raise vlib.ToolError("replay trace: %s for %d runs; inputs not run >= 4 times in 2 processes: %s" % (stats, len(runs), short[:3]))
+    if not NO_E2E:
+        inl = [k for k in per_input if k.startswith(("repro/p8/", "repro/p9/"))]
+        if len(inl) != 12 or any(len(per_input[k]) != 8 for k in inl):
+            raise vlib.ToolError("inline-order-hook programs p8/p9: expected 12 inputs x 8 runs, got %s" % {k: len(per_input[k]) for k in inl})
+        big = [e for e in runs if e["input"].startswith("repro/p8/") and e["proc"] == "A" and e["rep"] == 1
+               and any(l.count(", ") >= 8 and l.count("[") >= 4 for l in e["decisions"].splitlines() if "observed non-deterministic order" in l)]
+        if len(big) < 3:
+            raise vlib.ToolError("p8: fewer than 3 decision inputs give the inline keyed order hook a batch with several multi-value keys")
+        c38.extra["inline_order_hook_inputs"] = {"p8_keyed(KeyedStreamOrderHook)": 6, "p9(StreamOrderHook)": 6, "runs_each": 8,
+                                                 "p8_inputs_with_multi_key_multi_value_batch": len(big)}
     c38.traces += len(runs)
     c38.evaluations += len(runs)
     dec_of = {}
@@ -412,7 +431,8 @@ def run(tier):
     for inp, proc, rep, what in viol:
         kind = inp.split("/")[0]
         sub = inp.split("/")[1] if kind != "hooks" else "-"
-        c38.violation("simreplay/%s/%s/%s" % (kind, sub, what),
+        fp = "simhooks/replay/%s/%s" % (sub, what) if kind == "repro" else "simreplay/%s/%s/%s" % (kind, sub, what)
+        c38.violation(fp,
                       "run %s/%s of decision input %s: %s from the first run" % (proc, rep, inp, what),
                       {"kind": "replay", "events": [e for e in runs if e["input"] == inp]})
     s = next((e for e in runs if e["input"].startswith("repro/p4") and e["decisions"].count("Running Tick") >= 2), None)
@@ -430,7 +450,7 @@ def run(tier):
                 "distinct by hooks+steps")
     c37.rule = ("evaluations = cover checks (situation x driver) evaluated by TLC + explored instances of the end-to-end programs; "
                 "non-trivial/distinct = situations with >= 2 distinct outcomes, plus distinct tick-output sequences of the programs")
-    c38.rule = ("cases = runs; every decision input is run 4 times (2 per process, 2 processes); non-trivial = distinct decision "
+    c38.rule = ("cases = runs; every decision input is run >= 4 times (>= 2 per process, 2 processes; 4 + 4 for the inline-order-hook programs p8/p9); non-trivial = distinct decision "
                 "logs with >= 2 decisions (hook level: >= 2 non-degenerate driver requests; programs: >= 2 ticks), "
                 "plus whole exhaustive explorations")
     c36.assumptions = ["hook H3 (verif_run_hooks) forwards to the private run_hooks unchanged",
@@ -508,6 +528,20 @@ def _canaries(rtrace, etrace, dtrace, d, R):
     if not any(v[3] == "outputs-differ" for v in viol):
         raise vlib.ToolError("canary (altered outputs of a replayed run) NOT rejected")
     R["C38"].extra["canary"] = "altered outputs of a replay rejected: %s" % viol[:1]
+    # C38, inline order hooks: the 8 runs of one p8 input, one of them with two values of a key swapped
+    p8 = [dict(e) for e in vlib.read_ndjson(dtrace) if e.get("e") == "run" and e["input"].startswith("repro/p8/")]
+    if p8:
+        one = [e for e in p8 if e["input"] == p8[-1]["input"]]
+        out = json.loads(one[-1]["outputs"])
+        k = next(i for i, kv in enumerate(out) if len(kv[1]) >= 2)
+        out[k][1][0], out[k][1][1] = out[k][1][1], out[k][1][0]
+        one[-1]["outputs"] = json.dumps(out, separators=(",", ":"))
+        ct = os.path.join(d, "canary_c38_inline.ndjson")
+        vlib.write_ndjson(ct, one + [{"e": "eof"}])
+        viol, _, _ = _replay_validate(ct, "canary38i", None)
+        if not any(v[0] == one[-1]["input"] and v[3] == "outputs-differ" for v in viol):
+            raise vlib.ToolError("canary (p8 replay with two values of one key swapped) NOT rejected")
+        R["C38"].extra["canary_inline"] = "p8 replay with a different per-key order rejected: %s" % viol[:1]
 
 
 def replay(pid, path):
